@@ -1,11 +1,838 @@
-//! C04 — not built yet (see DESIGN.md §5 C04).
+//! C04 — results do not depend on the parallelism configuration; repeated execution of the same
+//! query on the same state gives the same result.
+//!
+//! What is enumerated (exhaustively): the configuration space PARALLEL_THRESHOLD ∈ {0,1,2,1000,max}
+//! × RAYON_NUM_THREADS ∈ {1,2,3,16} (quick: a 3×2 sub-grid + the baseline). The configuration is
+//! read once per process (`ParallelConfig::global()` is a `OnceLock`, rayon's pool is global), so
+//! every configuration runs in its own worker subprocess of this binary.
+//! Workload per configuration: a corpus of a few hundred queries over small tables (threshold
+//! 0/1/2 sends every scan, filter, sort, hash build and join through the rayon branch) plus ~60
+//! queries over deterministic 2 500-row tables (`chunk_size = max(len/threads, 1000)` gives 1, 2
+//! and 3 chunks for 1, 2 and ≥3 threads).
+//! Oracle: equality with the result of the same query under (max, 1 thread) — as a sequence where
+//! the ORDER BY totally orders the result, as a multiset otherwise; every query runs twice per
+//! process and both runs must agree.
+//! What is NOT enumerated: the schedules of rayon's own threads inside one configuration (no tool
+//! here can control them); each (configuration, query) is observed on the schedules that happened
+//! to occur in its two runs.
 
-pub fn run(_tier: &str) -> i32 {
-    eprintln!("MACHINERY-ERROR C04 is not built yet");
-    2
+use std::collections::{BTreeMap, HashSet};
+use std::io::Write;
+use std::process::{Command, Stdio};
+
+use serde_json::{json, Value};
+use vcore::report::Report;
+use vcore::val;
+use vibesql_storage::Database;
+
+use crate::common;
+
+// ---------------------------------------------------------------------------------------------
+// workload
+// ---------------------------------------------------------------------------------------------
+
+#[derive(Clone, Debug)]
+pub struct WQ {
+    pub sql: String,
+    /// the ORDER BY totally orders the result (keys unique over the result): compare as sequence
+    pub ordered: bool,
+    /// template family, used in signatures
+    pub family: &'static str,
+    pub big: bool,
 }
 
-pub fn replay(_case: &serde_json::Value) -> i32 {
-    eprintln!("MACHINERY-ERROR C04 is not built yet");
-    2
+const SMALL_PRELUDE: &[&str] = &[
+    "CREATE TABLE t (id INT PRIMARY KEY, a INT, b INT, s VARCHAR(10))",
+    "INSERT INTO t VALUES (1, 1, 10, 'x'), (2, 2, 20, 'y'), (3, 2, NULL, 'x'), (4, NULL, 40, NULL), (5, 3, 10, 'zz'), (6, 1, 0, 'y'), (7, 0, 70, 'a'), (8, NULL, NULL, 'x')",
+    "CREATE TABLE u (id INT, a INT, d INT)",
+    "INSERT INTO u VALUES (1, 1, 100), (2, 2, 200), (3, 2, 201), (4, NULL, 400), (5, 9, 900), (6, 0, NULL)",
+    "CREATE TABLE w (k INT, v DOUBLE)",
+    "INSERT INTO w VALUES (1, 0.5), (2, 1.5), (2, 2.5), (NULL, 3.5), (3, NULL)",
+    "CREATE TABLE e (id INT, a INT)",
+    "CREATE INDEX t_a ON t (a)",
+    "CREATE INDEX u_a ON u (a)",
+    "CREATE VIEW tv AS SELECT id, a, b FROM t WHERE b >= 10",
+];
+
+fn wq(sql: String, ordered: bool, family: &'static str, big: bool) -> WQ {
+    WQ { sql, ordered, family, big }
+}
+
+fn small_corpus() -> Vec<WQ> {
+    let mut out = vec![];
+    // --- scans and filters (table-local predicates, index predicates, residual WHERE) -----------
+    let preds = [
+        "a = 2", "a <> 2", "a < 2", "a >= 1", "b > 10", "b <= 10", "a IS NULL", "a IS NOT NULL", "b IS NULL",
+        "a BETWEEN 1 AND 2", "a NOT BETWEEN 1 AND 2", "a IN (1, 3)", "a NOT IN (1, 3)", "a IN (1, NULL)",
+        "s = 'x'", "s LIKE 'z%'", "s <> 'x'", "a = 1 AND b = 10", "a = 2 OR b = 10", "NOT (a = 2)",
+        "a = 2 AND (b > 5 OR s = 'x')", "a + b > 20", "a * 2 = b / 10", "id > 3 AND a IS NOT NULL",
+        "COALESCE(a, 0) = 0", "CASE WHEN a > 1 THEN b ELSE 0 END > 5", "a = b", "id = 4", "id IN (2, 4, 6)",
+        "a > 0 AND a < 3 AND b >= 10",
+    ];
+    for p in preds {
+        out.push(wq(format!("SELECT id, a, b, s FROM t WHERE {}", p), false, "filter", false));
+        out.push(wq(format!("SELECT id FROM t WHERE {} ORDER BY id", p), true, "filter_order", false));
+        out.push(wq(format!("SELECT COUNT(*), SUM(b), MIN(a), MAX(s) FROM t WHERE {}", p), true, "filter_aggregate", false));
+    }
+    // --- predicates with subqueries (the thread-local evaluators of the parallel filters) -------
+    let subq = [
+        "a IN (SELECT a FROM u)",
+        "a NOT IN (SELECT a FROM u WHERE a IS NOT NULL)",
+        "a NOT IN (SELECT a FROM u)",
+        "EXISTS (SELECT 1 FROM u WHERE u.a = t.a)",
+        "NOT EXISTS (SELECT 1 FROM u WHERE u.a = t.a)",
+        "b > (SELECT MIN(d) FROM u) / 10",
+        "b = (SELECT MAX(b) FROM t)",
+        "a = (SELECT COUNT(*) FROM u WHERE u.a = t.a)",
+        "id IN (SELECT id FROM u WHERE d > 100) AND a IS NOT NULL",
+        "EXISTS (SELECT 1 FROM u WHERE u.a = t.a AND u.d > t.b)",
+        "a IN (SELECT k FROM w WHERE v > 1)",
+    ];
+    for p in subq {
+        out.push(wq(format!("SELECT id, a FROM t WHERE {}", p), false, "filter_subquery", false));
+        out.push(wq(format!("SELECT id FROM t WHERE {} ORDER BY id DESC", p), true, "filter_subquery_order", false));
+    }
+    // subqueries that reference a CTE / a view from inside a filtered scan
+    for p in ["a IN (SELECT a FROM c)", "EXISTS (SELECT 1 FROM c WHERE c.a = t.a)", "b >= (SELECT MAX(d) FROM c) / 10"] {
+        out.push(wq(format!("WITH c AS (SELECT a, d FROM u WHERE d >= 200) SELECT id, a FROM t WHERE {}", p), false, "filter_subquery_cte", false));
+        out.push(wq(
+            format!("WITH c AS (SELECT a, d FROM u WHERE d >= 200) SELECT id FROM t WHERE {} AND id > 0 ORDER BY id", p),
+            true,
+            "filter_subquery_cte",
+            false,
+        ));
+    }
+    out.push(wq("WITH c AS (SELECT id, a FROM t WHERE a >= 1) SELECT id, a FROM c WHERE a < 3".into(), false, "cte_filter", false));
+    out.push(wq("WITH c AS (SELECT id, a FROM t WHERE a >= 1), d AS (SELECT a FROM c WHERE a < 3) SELECT * FROM c WHERE a IN (SELECT a FROM d)".into(), false, "cte_filter", false));
+    out.push(wq("SELECT id, a FROM tv WHERE a >= 1".into(), false, "view_filter", false));
+    out.push(wq("SELECT id FROM tv WHERE a IN (SELECT a FROM u) ORDER BY id".into(), true, "view_filter", false));
+    out.push(wq("SELECT x.id FROM (SELECT id, a FROM t WHERE b >= 10) x WHERE x.a >= 1 ORDER BY x.id".into(), true, "derived_filter", false));
+    out.push(wq("SELECT * FROM e WHERE a = 1".into(), false, "empty_table", false));
+    out.push(wq("SELECT COUNT(*), SUM(a) FROM e WHERE a >= 0".into(), true, "empty_table", false));
+
+    // --- sorts -----------------------------------------------------------------------------------
+    let orders: [(&str, bool); 10] = [
+        ("id", true),
+        ("id DESC", true),
+        ("a, id", true),
+        ("a DESC, id DESC", true),
+        ("b, a, id", true),
+        ("s, id", true),
+        ("a", false),
+        ("s DESC", false),
+        ("a + b, id", true),
+        ("2, 1", true),
+    ];
+    for (o, total) in orders {
+        out.push(wq(format!("SELECT id, a, b, s FROM t ORDER BY {}", o), total, "sort", false));
+        if total {
+            for tail in ["LIMIT 3", "LIMIT 3 OFFSET 2", "LIMIT 0", "LIMIT 100 OFFSET 7"] {
+                out.push(wq(format!("SELECT id, a, b, s FROM t ORDER BY {} {}", o, tail), true, "sort_limit", false));
+            }
+            out.push(wq(format!("SELECT id, a, b, s FROM t WHERE b IS NOT NULL ORDER BY {}", o), true, "sort_filter", false));
+        }
+    }
+    out.push(wq("SELECT DISTINCT a FROM t ORDER BY a".into(), true, "sort_distinct", false));
+    out.push(wq("SELECT DISTINCT s, a FROM t ORDER BY s, a".into(), true, "sort_distinct", false));
+    out.push(wq("SELECT DISTINCT a FROM t".into(), false, "distinct", false));
+    out.push(wq("SELECT a AS z, COUNT(*) FROM t GROUP BY a ORDER BY z".into(), true, "sort_group", false));
+
+    // --- joins (hash build, nested loop, outer, cross, multi-way, semi / anti) ---------------------
+    let joins = [
+        "t JOIN u ON t.a = u.a",
+        "t INNER JOIN u ON t.a = u.a AND u.d > 100",
+        "t LEFT JOIN u ON t.a = u.a",
+        "u LEFT JOIN t ON t.a = u.a",
+        "t JOIN u ON t.a < u.a",
+        "t CROSS JOIN w",
+        "t, u WHERE t.a = u.a",
+        "t, u WHERE t.a = u.a AND t.b > 5",
+        "t JOIN u ON t.id = u.id",
+        "t JOIN w ON t.a = w.k",
+        "t JOIN u ON t.a = u.a JOIN w ON u.a = w.k",
+        "t, u, w WHERE t.a = u.a AND u.a = w.k",
+        "w, u, t WHERE t.a = u.a AND u.a = w.k AND t.b >= 10",
+        "t t1 JOIN t t2 ON t1.a = t2.a",
+        "t t1 JOIN t t2 ON t1.a = t2.a AND t1.id < t2.id",
+    ];
+    for j in joins {
+        let first = if j.starts_with("t t1") { "t1" } else if j.starts_with("w,") { "w" } else if j.starts_with("u ") { "u" } else { "t" };
+        let col = if first == "w" { "k" } else { "id" };
+        out.push(wq(format!("SELECT * FROM {}", j), false, "join", false));
+        out.push(wq(format!("SELECT COUNT(*), SUM({}.{}) FROM {}", first, col, j), true, "join_aggregate", false));
+    }
+    out.push(wq("SELECT t.id, u.id FROM t JOIN u ON t.a = u.a ORDER BY t.id, u.id".into(), true, "join_order", false));
+    out.push(wq("SELECT t.id, u.id FROM t LEFT JOIN u ON t.a = u.a ORDER BY t.id, u.id".into(), false, "join_order", false));
+    out.push(wq("SELECT t.id, u.d FROM t JOIN u ON t.a = u.a WHERE u.d >= 200 ORDER BY t.id, u.d LIMIT 2".into(), true, "join_order", false));
+
+    // --- aggregation and grouping -----------------------------------------------------------------
+    for g in ["a", "s", "a, s", "b / 10"] {
+        out.push(wq(format!("SELECT {}, COUNT(*), SUM(b), MIN(id), MAX(id) FROM t GROUP BY {}", g, g), false, "group", false));
+        out.push(wq(format!("SELECT {}, COUNT(*) FROM t GROUP BY {} HAVING COUNT(*) > 1", g, g), false, "group_having", false));
+        out.push(wq(format!("SELECT {}, COUNT(DISTINCT b), AVG(b) FROM t WHERE id > 1 GROUP BY {}", g, g), false, "group_filter", false));
+    }
+    for agg in ["COUNT(*)", "COUNT(a)", "SUM(a)", "AVG(b)", "MIN(s)", "MAX(b)", "COUNT(DISTINCT a)", "SUM(DISTINCT b)", "SUM(a * b)", "COUNT(*), SUM(b)"] {
+        out.push(wq(format!("SELECT {} FROM t", agg), true, "aggregate", false));
+        out.push(wq(format!("SELECT {} FROM t WHERE a >= 1", agg), true, "aggregate_filter", false));
+    }
+    out.push(wq("SELECT u.a, COUNT(*), SUM(t.b) FROM t JOIN u ON t.a = u.a GROUP BY u.a".into(), false, "group_join", false));
+    out.push(wq("SELECT k, SUM(v) FROM w GROUP BY k".into(), false, "group", false));
+
+    // --- set operations, derived tables ------------------------------------------------------------
+    for op in ["UNION", "UNION ALL", "INTERSECT", "EXCEPT"] {
+        out.push(wq(format!("SELECT a FROM t {} SELECT a FROM u", op), false, "setop", false));
+        out.push(wq(format!("SELECT a FROM t WHERE b >= 10 {} SELECT a FROM u WHERE d > 100", op), false, "setop_filter", false));
+    }
+    out.push(wq("SELECT a, n FROM (SELECT a, COUNT(*) AS n FROM t GROUP BY a) g WHERE n > 1".into(), false, "derived", false));
+    out.push(wq("SELECT id, (SELECT COUNT(*) FROM u WHERE u.a = t.a) FROM t".into(), false, "scalar_subquery_projection", false));
+    out.push(wq("SELECT id, (SELECT MAX(d) FROM u WHERE u.a = t.a) FROM t ORDER BY id".into(), true, "scalar_subquery_projection", false));
+    out.push(wq("SELECT id, a + b, a * b, COALESCE(s, '-'), CASE WHEN a IS NULL THEN 0 ELSE a END FROM t".into(), false, "projection", false));
+    out
+}
+
+/// Three deterministic 2 500-row tables. Text of the multi-row INSERTs is generated, 500 rows each.
+fn big_prelude() -> Vec<String> {
+    let mut out = vec![
+        "CREATE TABLE big1 (id INT PRIMARY KEY, g INT, v INT, s VARCHAR(8))".to_string(),
+        "CREATE TABLE big2 (id INT, g INT, w INT)".to_string(),
+        "CREATE TABLE big3 (k INT, x DOUBLE)".to_string(),
+    ];
+    let n = 2500;
+    for chunk in 0..5 {
+        let (mut r1, mut r2, mut r3) = (vec![], vec![], vec![]);
+        for i in (chunk * 500)..((chunk + 1) * 500).min(n) {
+            let g = if i % 50 == 49 { "NULL".to_string() } else { (i % 7).to_string() };
+            let v = (i * 7919) % 1000;
+            r1.push(format!("({}, {}, {}, 'k{}')", i, g, v, i % 13));
+            // big2: ids 1250..3749 (half overlap with big1), every 40th id NULL, descending w
+            let id2 = if i % 40 == 7 { "NULL".to_string() } else { (i + 1250).to_string() };
+            r2.push(format!("({}, {}, {})", id2, (i * 3) % 11, 5000 - i));
+            let x = if i % 97 == 0 { "NULL".to_string() } else { format!("{}.5", (i * 31) % 400) };
+            r3.push(format!("({}, {})", (i * 13) % 1000, x));
+        }
+        out.push(format!("INSERT INTO big1 VALUES {}", r1.join(", ")));
+        out.push(format!("INSERT INTO big2 VALUES {}", r2.join(", ")));
+        out.push(format!("INSERT INTO big3 VALUES {}", r3.join(", ")));
+    }
+    out.push("CREATE INDEX big1_v ON big1 (v)".into());
+    out
+}
+
+fn big_corpus() -> Vec<WQ> {
+    let q = |s: &str, ordered: bool, fam: &'static str| wq(s.to_string(), ordered, fam, true);
+    vec![
+        // scans / filters: every chunk must contribute, the last (short) chunk too
+        q("SELECT id FROM big1 WHERE v < 100 ORDER BY id", true, "big_filter_order"),
+        q("SELECT id, g, v, s FROM big1 WHERE g = 3", false, "big_filter"),
+        q("SELECT id FROM big1 WHERE g IS NULL ORDER BY id", true, "big_filter_order"),
+        q("SELECT COUNT(*), SUM(id), MIN(id), MAX(id) FROM big1 WHERE v >= 500", true, "big_filter_aggregate"),
+        q("SELECT COUNT(*), SUM(id), MAX(id) FROM big1 WHERE id >= 2000", true, "big_filter_aggregate"),
+        q("SELECT COUNT(*), SUM(id) FROM big1 WHERE id >= 2400 OR id < 3", true, "big_filter_aggregate"),
+        q("SELECT id FROM big1 WHERE s = 'k12' AND v > 10 ORDER BY id", true, "big_filter_order"),
+        q("SELECT id FROM big1 WHERE v BETWEEN 10 AND 20 ORDER BY id", true, "big_index_range"),
+        q("SELECT id FROM big1 WHERE v = 919 ORDER BY id", true, "big_index_point"),
+        q("SELECT id FROM big1 WHERE v IN (1, 2, 3, 500, 999) ORDER BY id", true, "big_index_in"),
+        q("SELECT id FROM big1 WHERE v > 990 AND g <> 2 ORDER BY id", true, "big_index_range_residual"),
+        q("SELECT COUNT(*), SUM(w) FROM big2 WHERE id IS NULL", true, "big_filter_aggregate"),
+        q("SELECT k, x FROM big3 WHERE x > 390 ORDER BY k, x", false, "big_filter"),
+        q("SELECT COUNT(*), SUM(x), MIN(x), MAX(x), AVG(x) FROM big3", true, "big_aggregate"),
+        q("SELECT COUNT(*), COUNT(g), SUM(v), MIN(v), MAX(v) FROM big1", true, "big_aggregate"),
+        q("SELECT COUNT(*), SUM(v), AVG(v) FROM big1 WHERE v >= 0", true, "big_aggregate"),
+        q("SELECT id FROM big1 WHERE v + id > 3400 ORDER BY id", true, "big_filter_order"),
+        q("SELECT id FROM big1 WHERE id >= 2300 AND id IN (SELECT id FROM big2 WHERE w < 2600) ORDER BY id", true, "big_semi_join"),
+        q("SELECT COUNT(*), SUM(id) FROM big1 WHERE id IN (SELECT id FROM big2)", true, "big_semi_join"),
+        q("SELECT COUNT(*), SUM(id) FROM big1 WHERE id NOT IN (SELECT id FROM big2 WHERE id IS NOT NULL)", true, "big_anti_join"),
+        q("SELECT COUNT(*) FROM big1 WHERE id NOT IN (SELECT id FROM big2)", true, "big_anti_join_null"),
+        q("SELECT COUNT(*), SUM(id) FROM big1 WHERE EXISTS (SELECT 1 FROM big2 WHERE big2.id = big1.id)", true, "big_semi_join"),
+        q("SELECT COUNT(*), SUM(id) FROM big1 WHERE NOT EXISTS (SELECT 1 FROM big2 WHERE big2.id = big1.id)", true, "big_anti_join"),
+        q("SELECT id FROM big1 WHERE NOT EXISTS (SELECT 1 FROM big2 WHERE big2.id = big1.id) AND id >= 1240 ORDER BY id", true, "big_anti_join"),
+        // sorts
+        q("SELECT id, v FROM big1 ORDER BY v, id", true, "big_sort"),
+        q("SELECT id, v FROM big1 ORDER BY v DESC, id DESC", true, "big_sort"),
+        q("SELECT id FROM big1 ORDER BY s, g, id", true, "big_sort"),
+        q("SELECT id FROM big1 ORDER BY g, id LIMIT 10 OFFSET 2490", true, "big_sort_limit"),
+        q("SELECT id, w FROM big2 ORDER BY w", true, "big_sort"),
+        q("SELECT id FROM big1 ORDER BY id DESC LIMIT 5", true, "big_sort_limit"),
+        q("SELECT k, x FROM big3 ORDER BY x, k", false, "big_sort_ties"),
+        q("SELECT id FROM big1 WHERE v < 500 ORDER BY v, id LIMIT 20", true, "big_sort_filter_limit"),
+        q("SELECT DISTINCT v FROM big1 ORDER BY v", true, "big_sort_distinct"),
+        q("SELECT DISTINCT g, s FROM big1", false, "big_distinct"),
+        // hash joins: build side of 2 500 rows, 1 / 2 / 3 chunks; keys in every chunk
+        q("SELECT COUNT(*), SUM(big1.id), SUM(big2.w) FROM big1 JOIN big2 ON big1.id = big2.id", true, "big_hash_join"),
+        q("SELECT COUNT(*), SUM(big1.id), SUM(big2.w) FROM big2 JOIN big1 ON big1.id = big2.id", true, "big_hash_join"),
+        q("SELECT big1.id, big2.w FROM big1 JOIN big2 ON big1.id = big2.id ORDER BY big1.id", true, "big_hash_join_order"),
+        q("SELECT big1.id, big2.w FROM big1 JOIN big2 ON big1.id = big2.id WHERE big1.id >= 2400 ORDER BY big1.id", true, "big_hash_join_order"),
+        q("SELECT big1.id, big2.w FROM big1, big2 WHERE big1.id = big2.id AND big2.w < 2600 ORDER BY big1.id", true, "big_hash_join_order"),
+        q("SELECT COUNT(*), SUM(big1.id), SUM(big3.x) FROM big1 JOIN big3 ON big1.v = big3.k", true, "big_hash_join_dup_keys"),
+        q("SELECT COUNT(*), SUM(big3.x) FROM big3 JOIN big1 ON big1.v = big3.k WHERE big1.id >= 2000", true, "big_hash_join_dup_keys"),
+        q("SELECT big1.id, big3.x FROM big1 JOIN big3 ON big1.v = big3.k WHERE big1.id < 40 ORDER BY big1.id, big3.x", false, "big_hash_join_dup_keys"),
+        q("SELECT COUNT(*), SUM(big2.w) FROM (SELECT id FROM big1 WHERE id >= 2300) a LEFT JOIN big2 ON a.id = big2.id", true, "big_left_join"),
+        q("SELECT COUNT(*), COUNT(b.id) FROM big1 LEFT JOIN (SELECT id FROM big2 WHERE id < 1500) b ON big1.id = b.id WHERE big1.id >= 1200", true, "big_left_join_heavy"),
+        q("SELECT a.id FROM (SELECT id FROM big1 WHERE id >= 1200 AND id < 1300) a LEFT JOIN big2 ON a.id = big2.id WHERE big2.id IS NULL ORDER BY a.id", true, "big_left_join"),
+        q("SELECT COUNT(*), SUM(a.id + b.id) FROM big1 a JOIN big1 b ON a.id = b.id", true, "big_self_join"),
+        q("SELECT COUNT(*) FROM big1 a JOIN big2 b ON a.id = b.id JOIN big3 c ON a.v = c.k", true, "big_three_way_join"),
+        q("SELECT COUNT(*), SUM(c.x) FROM big3 c, big1 a, big2 b WHERE a.id = b.id AND a.v = c.k AND b.w < 3000", true, "big_three_way_join"),
+        // grouping / aggregation over the large inputs
+        q("SELECT g, COUNT(*), SUM(v), MIN(id), MAX(id) FROM big1 GROUP BY g", false, "big_group"),
+        q("SELECT s, COUNT(*), SUM(v) FROM big1 WHERE id >= 1000 GROUP BY s", false, "big_group"),
+        q("SELECT g, COUNT(DISTINCT s), AVG(v) FROM big1 GROUP BY g HAVING COUNT(*) > 300", false, "big_group_having"),
+        q("SELECT g, COUNT(*) FROM big1 GROUP BY g ORDER BY g", true, "big_group_order"),
+        q("SELECT big2.g, COUNT(*), SUM(big1.v) FROM big1 JOIN big2 ON big1.id = big2.id GROUP BY big2.g", false, "big_group_join"),
+        q("SELECT k, COUNT(*), SUM(x) FROM big3 GROUP BY k HAVING COUNT(*) > 2", false, "big_group_having"),
+        // set operations and derived tables over large inputs
+        q("SELECT id FROM big1 WHERE id >= 1000 INTERSECT SELECT id FROM big2", false, "big_setop"),
+        q("SELECT id FROM big1 EXCEPT SELECT id FROM big2", false, "big_setop"),
+        q("SELECT g FROM big1 UNION SELECT g FROM big2", false, "big_setop"),
+        q("SELECT COUNT(*) FROM (SELECT id FROM big1 UNION ALL SELECT id FROM big2) z", true, "big_setop"),
+        q("SELECT COUNT(*), SUM(n) FROM (SELECT v, COUNT(*) AS n FROM big1 GROUP BY v) z WHERE n >= 3", true, "big_derived"),
+        q("WITH c AS (SELECT id, w FROM big2 WHERE w < 3000) SELECT COUNT(*), SUM(big1.v) FROM big1 WHERE id IN (SELECT id FROM c)", true, "big_cte_subquery"),
+        q("WITH c AS (SELECT id, w FROM big2 WHERE w < 3000) SELECT big1.id FROM big1 JOIN c ON big1.id = c.id WHERE c.w > 2900 ORDER BY big1.id", true, "big_cte_join"),
+        q("SELECT id, (SELECT COUNT(*) FROM big3 WHERE big3.k = big1.v) FROM big1 WHERE id < 30 ORDER BY id", true, "big_scalar_subquery"),
+    ]
+}
+
+/// Queries that run a correlated subquery per row of a 2 500-row table, or a three-way join: they
+/// cost seconds each and are left to the thorough tier.
+const HEAVY: &[&str] = &["big_left_join_heavy", "big_three_way_join", "big_anti_join", "big_anti_join_null", "big_scalar_subquery", "big_self_join", "big_cte_subquery"];
+
+/// `a [NOT] IN (SELECT a FROM …)`: the outer and the inner column have the same unqualified name.
+fn same_name_in_subquery(sql: &str) -> bool {
+    sql.contains(" a IN (SELECT a FROM") || sql.contains(" a NOT IN (SELECT a FROM")
+}
+
+pub fn corpus(thorough: bool) -> Vec<WQ> {
+    let mut c = small_corpus();
+    for q in c.iter_mut() {
+        if same_name_in_subquery(&q.sql) {
+            q.family = "in_subquery_same_column_name";
+        }
+    }
+    c.extend(big_corpus().into_iter().filter(|q| {
+        thorough || !(HEAVY.contains(&q.family) || q.sql.contains("EXISTS (SELECT 1 FROM big2"))
+    }));
+    c
+}
+
+fn setup() -> Result<Database, String> {
+    let mut stmts: Vec<String> = SMALL_PRELUDE.iter().map(|s| s.to_string()).collect();
+    stmts.extend(big_prelude());
+    common::build_db(&stmts).map_err(|(s, o)| format!("{} => {}", vcore::util::trunc(&s, 120), o))
+}
+
+// ---------------------------------------------------------------------------------------------
+// worker: one process = one configuration
+// ---------------------------------------------------------------------------------------------
+
+fn seq_hash(rows: &[Vec<val::NV>]) -> String {
+    format!("{:032x}", vcore::util::hash128(format!("{:?}", rows).as_bytes()))
+}
+
+fn observe(db: &Database, sql: &str) -> (String, Vec<Vec<val::NV>>, String) {
+    let o = vcore::exec::select(db, sql);
+    match &o {
+        vcore::exec::Out::Rows(r) => ("ok".into(), val::seq(r), String::new()),
+        vcore::exec::Out::Panic(m) => ("panic".into(), vec![], m.clone()),
+        other => ("err".into(), vec![], other.brief()),
+    }
+}
+
+/// `aggcheck c04-worker <out> [<i,j,…>]` — configuration comes from the environment.
+/// Writes one JSON line per query (flushed before the next query starts) and a final `done` line.
+pub fn worker(out_path: &str, only: Option<Vec<usize>>) -> i32 {
+    let mut f = match std::fs::File::create(out_path) {
+        Ok(f) => f,
+        Err(e) => {
+            eprintln!("c04-worker: cannot create {}: {}", out_path, e);
+            return 2;
+        }
+    };
+    let t_setup = std::time::Instant::now();
+    let db = match setup() {
+        Ok(d) => d,
+        Err(e) => {
+            let _ = writeln!(f, "{}", json!({"setup_error": e}));
+            return 2;
+        }
+    };
+    let setup_ms = t_setup.elapsed().as_millis() as u64;
+    vibesql_types::verif::reset();
+    let qs = corpus(std::env::var("VERIF_C04_TIER").map(|t| t == "thorough").unwrap_or(false));
+    let full = only.is_some();
+    for (i, q) in qs.iter().enumerate() {
+        if let Some(o) = &only {
+            if !o.contains(&i) {
+                continue;
+            }
+        }
+        let _ = writeln!(f, "{}", json!({"start": i}));
+        let _ = f.flush();
+        let t0 = std::time::Instant::now();
+        let (c1, r1, m1) = observe(&db, &q.sql);
+        let (c2, r2, _m2) = observe(&db, &q.sql);
+        let ms = t0.elapsed().as_millis() as u64;
+        let mut b1 = r1.clone();
+        b1.sort();
+        let mut b2 = r2.clone();
+        b2.sort();
+        let repeat_same = c1 == c2 && if q.ordered { r1 == r2 } else { b1 == b2 };
+        let mut line = json!({
+            "i": i, "class": c1, "n": r1.len(), "seq": seq_hash(&r1), "bag": seq_hash(&b1),
+            "repeat_same": repeat_same, "class2": c2, "n2": r2.len(), "ms": ms,
+            "brief": vcore::util::trunc(&val::fmt_bag(&r1), 300), "msg": vcore::util::trunc(&m1, 200),
+        });
+        if full {
+            line["rows"] = json!(r1.iter().map(|r| r.iter().map(val::fmt_nv).collect::<Vec<_>>().join(",")).collect::<Vec<_>>());
+            line["rows2"] = json!(r2.iter().map(|r| r.iter().map(val::fmt_nv).collect::<Vec<_>>().join(",")).collect::<Vec<_>>());
+        }
+        let _ = writeln!(f, "{}", line);
+        let _ = f.flush();
+    }
+    let reach: BTreeMap<String, u64> =
+        vibesql_types::verif::snapshot().into_iter().filter(|(k, _)| k.starts_with("parallel_")).map(|(k, v)| (k.to_string(), v)).collect();
+    let _ = writeln!(f, "{}", json!({"done": true, "reach": reach, "rayon_threads": rayon::current_num_threads(), "setup_ms": setup_ms}));
+    0
+}
+
+// ---------------------------------------------------------------------------------------------
+// driver
+// ---------------------------------------------------------------------------------------------
+
+thread_local! {
+    /// tier of the running check (workers must generate the same corpus as the driver)
+    static TIER: std::cell::RefCell<String> = std::cell::RefCell::new("quick".to_string());
+}
+
+/// At most this many new violation signatures are re-executed and written out per run.
+const MAX_REPORTED: usize = 8;
+
+#[derive(Clone, Debug, PartialEq, Eq, PartialOrd, Ord)]
+struct Config {
+    threshold: String,
+    threads: usize,
+}
+
+impl Config {
+    fn name(&self) -> String {
+        format!("PARALLEL_THRESHOLD={} RAYON_NUM_THREADS={}", self.threshold, self.threads)
+    }
+}
+
+struct WorkerResult {
+    lines: BTreeMap<usize, Value>,
+    /// index of the query in flight when the worker died, if it died
+    died_at: Option<usize>,
+    done: Option<Value>,
+    error: Option<String>,
+}
+
+fn scratch_dir() -> String {
+    let d = format!("/tmp/agg-c04-{}", std::process::id());
+    let _ = std::fs::create_dir_all(&d);
+    d
+}
+
+fn spawn_worker(cfg: &Config, tag: &str, only: Option<&[usize]>) -> Result<(std::process::Child, String), String> {
+    let exe = std::env::current_exe().map_err(|e| e.to_string())?;
+    let out = format!("{}/{}-{}-{}.jsonl", scratch_dir(), tag, cfg.threshold, cfg.threads);
+    let mut cmd = Command::new(exe);
+    cmd.arg("c04-worker").arg(&out);
+    if let Some(o) = only {
+        cmd.arg(o.iter().map(|i| i.to_string()).collect::<Vec<_>>().join(","));
+    }
+    cmd.env("PARALLEL_THRESHOLD", &cfg.threshold).env("RAYON_NUM_THREADS", cfg.threads.to_string());
+    cmd.env("VERIF_C04_TIER", TIER.with(|t| t.borrow().clone()));
+    cmd.stdin(Stdio::null()).stdout(Stdio::null()).stderr(Stdio::null());
+    let child = cmd.spawn().map_err(|e| format!("cannot spawn worker: {}", e))?;
+    Ok((child, out))
+}
+
+fn collect(mut child: std::process::Child, out: &str) -> WorkerResult {
+    let status = child.wait();
+    let text = std::fs::read_to_string(out).unwrap_or_default();
+    let mut res = WorkerResult { lines: BTreeMap::new(), died_at: None, done: None, error: None };
+    let mut in_flight: Option<usize> = None;
+    for l in text.lines() {
+        let Ok(v) = serde_json::from_str::<Value>(l) else { continue };
+        if let Some(e) = v.get("setup_error") {
+            res.error = Some(format!("worker setup failed: {}", e));
+        } else if let Some(s) = v.get("start").and_then(|x| x.as_u64()) {
+            in_flight = Some(s as usize);
+        } else if let Some(i) = v.get("i").and_then(|x| x.as_u64()) {
+            res.lines.insert(i as usize, v);
+            in_flight = None;
+        } else if v.get("done").is_some() {
+            res.done = Some(v);
+        }
+    }
+    if res.done.is_none() && res.error.is_none() {
+        match in_flight {
+            Some(i) => res.died_at = Some(i),
+            None => res.error = Some(format!("worker ended without a result ({:?})", status.map(|s| s.to_string()))),
+        }
+    }
+    res
+}
+
+fn run_configs(cfgs: &[Config], tag: &str, only: Option<&[usize]>, max_parallel: usize) -> Result<Vec<WorkerResult>, String> {
+    let mut results: Vec<Option<WorkerResult>> = cfgs.iter().map(|_| None).collect();
+    let mut next = 0;
+    let mut running: Vec<(usize, std::process::Child, String)> = vec![];
+    while next < cfgs.len() || !running.is_empty() {
+        while next < cfgs.len() && running.len() < max_parallel {
+            let (c, o) = spawn_worker(&cfgs[next], tag, only)?;
+            running.push((next, c, o));
+            next += 1;
+        }
+        let (i, c, o) = running.remove(0);
+        results[i] = Some(collect(c, &o));
+    }
+    Ok(results.into_iter().map(|r| r.unwrap()).collect())
+}
+
+fn s(v: &Value, k: &str) -> String {
+    v.get(k).and_then(|x| x.as_str()).unwrap_or("").to_string()
+}
+
+/// Why two observations of one query differ (None = they agree under the oracle).
+fn differs(q: &WQ, base: &Value, other: &Value) -> Option<String> {
+    let (cb, co) = (s(base, "class"), s(other, "class"));
+    if cb != co {
+        return Some(format!("outcome class {} vs {} ({})", cb, co, s(other, "msg")));
+    }
+    if cb != "ok" {
+        return None; // both reject: not a case
+    }
+    let key = if q.ordered { "seq" } else { "bag" };
+    if s(base, key) != s(other, key) {
+        return Some(format!(
+            "{} differs: {} rows {} vs {} rows {}",
+            if q.ordered { "row sequence" } else { "row multiset" },
+            base["n"],
+            s(base, "brief"),
+            other["n"],
+            s(other, "brief")
+        ));
+    }
+    None
+}
+
+fn diff_rows(a: &Value, b: &Value) -> String {
+    let get = |v: &Value, k: &str| -> Vec<String> {
+        v.get(k).and_then(|x| x.as_array()).map(|a| a.iter().filter_map(|s| s.as_str().map(|x| x.to_string())).collect()).unwrap_or_default()
+    };
+    let (ra, rb) = (get(a, "rows"), get(b, "rows"));
+    let mut only_a = vec![];
+    let mut bb = rb.clone();
+    for r in &ra {
+        if let Some(p) = bb.iter().position(|x| x == r) {
+            bb.remove(p);
+        } else {
+            only_a.push(r.clone());
+        }
+    }
+    let first_pos = ra.iter().zip(rb.iter()).position(|(x, y)| x != y);
+    format!(
+        "{} rows only under the sequential configuration (first: {:?}), {} rows only under the parallel one (first: {:?}), first position that differs: {:?}",
+        only_a.len(),
+        only_a.iter().take(3).collect::<Vec<_>>(),
+        bb.len(),
+        bb.iter().take(3).collect::<Vec<_>>(),
+        first_pos
+    )
+}
+
+pub fn run(tier: &str) -> i32 {
+    let thorough = tier == "thorough";
+    TIER.with(|t| *t.borrow_mut() = tier.to_string());
+    let mut rep = Report::new("C04", tier, "exploration");
+    let baseline = Config { threshold: "max".into(), threads: 1 };
+    let mut cfgs: Vec<Config> = vec![baseline.clone()];
+    let (ths, thr): (Vec<&str>, Vec<usize>) =
+        if thorough { (vec!["0", "1", "2", "1000", "max"], vec![1, 2, 3, 16]) } else { (vec!["0", "2", "1000"], vec![2, 3]) };
+    for t in &ths {
+        for n in &thr {
+            let c = Config { threshold: t.to_string(), threads: *n };
+            if c != baseline {
+                cfgs.push(c);
+            }
+        }
+    }
+    let qs = corpus(thorough);
+    // quick: all 7 workers at once (at most 3 rayon threads each); thorough: 5 at a time (up to 16 threads each)
+    let max_parallel = if thorough { 5 } else { 7 };
+    let results = match run_configs(&cfgs, "main", None, max_parallel) {
+        Ok(r) => r,
+        Err(e) => {
+            rep.machinery_error(e);
+            return rep.finish();
+        }
+    };
+    let base = &results[0];
+    if let Some(e) = &base.error {
+        rep.machinery_error(format!("baseline worker: {}", e));
+        return rep.finish();
+    }
+    if let Some(i) = base.died_at {
+        rep.machinery_error(format!("baseline worker died while executing query {}: {}", i, qs[i].sql));
+        return rep.finish();
+    }
+
+    // candidates: (config index, query index, kind, description)
+    let mut cands: Vec<(usize, usize, &'static str, String)> = vec![];
+    let mut evaluations = 0u64;
+    let mut both_reject = 0u64;
+    let mut outcomes: HashSet<String> = HashSet::new();
+    let mut per_cfg = vec![];
+    let mut vacuous: Vec<String> = vec![];
+    for (ci, (cfg, res)) in cfgs.iter().zip(results.iter()).enumerate() {
+        if let Some(e) = &res.error {
+            rep.machinery_error(format!("{}: {}", cfg.name(), e));
+            continue;
+        }
+        if let Some(i) = res.died_at {
+            cands.push((ci, i, "worker_died", "the worker process died while executing the query".into()));
+        }
+        let mut ok = 0;
+        let mut err = 0;
+        for (i, q) in qs.iter().enumerate() {
+            let Some(line) = res.lines.get(&i) else { continue };
+            evaluations += 2;
+            outcomes.insert(format!("{}:{}", s(line, "class"), s(line, "bag")));
+            if s(line, "class") == "ok" {
+                ok += 1;
+            } else {
+                err += 1;
+            }
+            if s(line, "class") == "panic" {
+                cands.push((ci, i, "panic", format!("the query panicked: {}", s(line, "msg"))));
+                continue;
+            }
+            if line["repeat_same"] == json!(false) {
+                cands.push((ci, i, "not_repeatable", format!("two executions in one process differ: {} rows then {} rows ({} / {})", line["n"], line["n2"], s(line, "class"), s(line, "class2"))));
+            }
+            if ci > 0 {
+                if let Some(b) = base.lines.get(&i) {
+                    if s(b, "class") != "ok" && s(line, "class") != "ok" {
+                        both_reject += 1;
+                    }
+                    if let Some(d) = differs(q, b, line) {
+                        cands.push((ci, i, "differs_from_sequential", d));
+                    }
+                }
+            }
+        }
+        let reach = res.done.as_ref().map(|d| d["reach"].clone()).unwrap_or(json!({}));
+        let threads_seen = res.done.as_ref().map(|d| d["rayon_threads"].clone()).unwrap_or(json!(null));
+        if threads_seen != json!(cfg.threads) && res.done.is_some() {
+            rep.machinery_error(format!("{}: rayon reports {} threads", cfg.name(), threads_seen));
+        }
+        let par_total: u64 = reach.as_object().map(|m| m.values().filter_map(|v| v.as_u64()).sum()).unwrap_or(0);
+        if cfg.threshold != "max" && par_total == 0 {
+            vacuous.push(format!("parallel branches under {}", cfg.name()));
+        }
+        if cfg.threshold == "max" && par_total != 0 {
+            rep.machinery_error(format!("{}: parallel branches were taken ({})", cfg.name(), reach));
+        }
+        let mut slow: Vec<(u64, usize)> = res.lines.iter().map(|(i, l)| (l["ms"].as_u64().unwrap_or(0), *i)).collect();
+        slow.sort();
+        slow.reverse();
+        let total_ms: u64 = slow.iter().map(|x| x.0).sum();
+        let slowest: Vec<Value> = slow.iter().take(3).map(|(ms, i)| json!({"ms": ms, "query": qs[*i].sql})).collect();
+        per_cfg.push(json!({"config": cfg.name(), "query_ms_total": total_ms, "slowest": slowest,
+            "setup_ms": res.done.as_ref().map(|d| d["setup_ms"].clone()).unwrap_or(json!(null)), "queries_ok": ok, "queries_rejected": err, "parallel_branch_decisions": reach, "rayon_threads": threads_seen}));
+    }
+
+    // every candidate is re-executed twice in fresh processes (both configurations) before it is reported
+    let mut reported: HashSet<String> = HashSet::new();
+    let findings = vcore::report::load_findings("C04");
+    let (mut new_kept, mut cut) = (0usize, 0usize);
+    let mut n_reported = 0u64;
+    cands.sort_by_key(|c| (c.1, c.0));
+    for (ci, qi, kind, what) in &cands {
+        let q = &qs[*qi];
+        let cfg = &cfgs[*ci];
+        let sig = vec![
+            ("kind", kind.to_string()),
+            ("family", q.family.to_string()),
+            ("query", q.sql.clone()),
+            ("parallel", if cfg.threshold == "max" { "no".to_string() } else { "yes".to_string() }),
+        ];
+        let key = format!("{:?}", sig);
+        if reported.contains(&key) {
+            continue;
+        }
+        reported.insert(key);
+        let known = findings.iter().any(|k| k.sig.iter().all(|(a, want)| sig.iter().any(|(b, v)| b == a && v == want)));
+        if !known {
+            if new_kept >= MAX_REPORTED {
+                cut += 1;
+                continue;
+            }
+            new_kept += 1;
+        } else {
+            // an open known finding: reported as such, not re-confirmed in fresh processes
+            let case = json!({
+                "kind": "c04", "tier": tier, "query_index": qi, "query": q.sql, "ordered": q.ordered, "family": q.family,
+                "config": {"threshold": cfg.threshold, "threads": cfg.threads},
+                "baseline": {"threshold": "max", "threads": 1},
+            });
+            rep.violation(&sig.iter().map(|(k, v)| (*k, v.clone())).collect::<Vec<_>>(), format!("{} under {}: {}", q.sql, cfg.name(), what), case);
+            n_reported += 1;
+            continue;
+        }
+        let mut confirmed = 0;
+        let mut detail = String::new();
+        for round in 0..2 {
+            let pair = [baseline.clone(), cfg.clone()];
+            match run_configs(&pair, &format!("re{}", round), Some(&[*qi]), 2) {
+                Err(e) => rep.machinery_error(e),
+                Ok(rr) => {
+                    let again = match *kind {
+                        "worker_died" => rr[1].died_at == Some(*qi),
+                        "panic" => rr[1].lines.get(qi).map(|l| s(l, "class") == "panic").unwrap_or(false),
+                        "not_repeatable" => {
+                            // a schedule-dependent failure need not recur in a fresh process; a
+                            // difference from the sequential result counts as the same failure
+                            rr[1].lines.get(qi).map(|l| l["repeat_same"] == json!(false)).unwrap_or(false)
+                                || match (rr[0].lines.get(qi), rr[1].lines.get(qi)) {
+                                    (Some(b), Some(o)) => differs(q, b, o).is_some(),
+                                    _ => false,
+                                }
+                        }
+                        _ => match (rr[0].lines.get(qi), rr[1].lines.get(qi)) {
+                            (Some(b), Some(o)) => {
+                                if detail.is_empty() {
+                                    detail = diff_rows(b, o);
+                                }
+                                differs(q, b, o).is_some()
+                            }
+                            _ => false,
+                        },
+                    };
+                    if again {
+                        confirmed += 1;
+                    }
+                }
+            }
+        }
+        let case = json!({
+            "kind": "c04", "tier": tier, "query_index": qi, "query": q.sql, "ordered": q.ordered, "family": q.family,
+            "config": {"threshold": cfg.threshold, "threads": cfg.threads},
+            "baseline": {"threshold": "max", "threads": 1},
+            "setup": "SMALL_PRELUDE + big_prelude() of harness/agg/src/c04.rs (deterministic)",
+        });
+        let text = format!("{} under {} vs sequential: {} {}", q.sql, cfg.name(), what, detail);
+        if confirmed == 2 {
+            rep.violation(&sig.iter().map(|(k, v)| (*k, v.clone())).collect::<Vec<_>>(), text, case);
+            n_reported += 1;
+        } else if confirmed == 1 || *kind == "not_repeatable" {
+            // depends on the schedule: reported (it was observed), marked as intermittent
+            let mut sig2 = sig.clone();
+            sig2.push(("intermittent", "yes".into()));
+            rep.violation(
+                &sig2.iter().map(|(k, v)| (*k, v.clone())).collect::<Vec<_>>(),
+                format!("{} [reproduced in {} of 2 fresh process pairs]", text, confirmed),
+                case,
+            );
+            n_reported += 1;
+        } else {
+            rep.machinery_error(format!("observation did not reproduce in fresh processes: {}", text));
+        }
+    }
+    rep.merge_violations(vec![], (cands.len() as u64).saturating_sub(n_reported));
+    let _ = std::fs::remove_dir_all(scratch_dir());
+
+    let n_small = qs.iter().filter(|q| !q.big).count();
+    let n_big = qs.len() - n_small;
+    rep.set("evaluations", json!(evaluations));
+    rep.set("distinct_nontrivial", json!(outcomes.len()));
+    rep.set("distinct_outcomes", json!(outcomes.len()));
+    rep.set("exhaustive", json!(true));
+    rep.set(
+        "rule",
+        json!("for every configuration (PARALLEL_THRESHOLD × RAYON_NUM_THREADS, one worker process each) and every corpus query: the result equals the result under (max, 1 thread) — as a sequence when ORDER BY totally orders it, else as a multiset — and two executions in the same process agree"),
+    );
+    rep.set(
+        "bounds",
+        json!({
+            "configurations": cfgs.iter().map(|c| c.name()).collect::<Vec<_>>(),
+            "thresholds": ths, "threads": thr,
+            "queries_small_tables": n_small, "queries_2500_row_tables": n_big,
+            "executions_per_query_per_process": 2,
+        }),
+    );
+    rep.set(
+        "exhaustive_scope",
+        json!("the configuration space × the fixed corpus is covered completely; the schedules of rayon's threads inside one configuration are NOT enumerated (no tool here controls them) — each (configuration, query) pair is observed on the two schedules that occurred"),
+    );
+    rep.set("per_configuration", json!(per_cfg));
+    rep.set("cases_both_reject", json!(both_reject));
+    rep.set("violation_signatures_not_written_out", json!(cut));
+    if cut > 0 {
+        println!("note: {} further violation signatures were counted but not written out (limit {})", cut, MAX_REPORTED);
+    }
+    rep.set("vacuous_mechanisms", json!(vacuous));
+    rep.set(
+        "samples",
+        json!(qs.iter().step_by(qs.len() / 8).map(|q| json!({"query": q.sql, "ordered": q.ordered, "family": q.family})).collect::<Vec<_>>()),
+    );
+    rep.assume("rayon closures in the parallel operators map one item to one output and share no mutable state (read off the code, DESIGN §6); under that assumption one execution per configuration represents its schedules");
+    println!(
+        "C04 {}: {} configurations × {} queries ({} small-table, {} over 2500-row tables) × 2 executions = {} executions, {} distinct outcomes, {} candidates",
+        tier,
+        cfgs.len(),
+        qs.len(),
+        n_small,
+        n_big,
+        evaluations,
+        outcomes.len(),
+        cands.len()
+    );
+    for v in &vacuous {
+        println!("WARNING vacuous mechanism: {}", v);
+    }
+    rep.finish()
+}
+
+pub fn replay(case: &Value) -> i32 {
+    let qi = case["query_index"].as_u64().unwrap_or(0) as usize;
+    let tier = case["tier"].as_str().unwrap_or("quick").to_string();
+    TIER.with(|t| *t.borrow_mut() = tier.clone());
+    let qs = corpus(tier == "thorough");
+    if qi >= qs.len() || Some(qs[qi].sql.as_str()) != case["query"].as_str() {
+        eprintln!("MACHINERY-ERROR replay: the corpus no longer has this query at index {}", qi);
+        return 2;
+    }
+    let cfg = Config {
+        threshold: case["config"]["threshold"].as_str().unwrap_or("0").to_string(),
+        threads: case["config"]["threads"].as_u64().unwrap_or(2) as usize,
+    };
+    let baseline = Config { threshold: "max".into(), threads: 1 };
+    println!("{}", qs[qi].sql);
+    match run_configs(&[baseline.clone(), cfg.clone()], "replay", Some(&[qi]), 2) {
+        Err(e) => {
+            eprintln!("MACHINERY-ERROR replay: {}", e);
+            2
+        }
+        Ok(rr) => {
+            let _ = std::fs::remove_dir_all(scratch_dir());
+            for (c, r) in [&baseline, &cfg].iter().zip(rr.iter()) {
+                match r.lines.get(&qi) {
+                    Some(l) => println!("   {} => {} {} rows {} (second run equal: {})", c.name(), s(l, "class"), l["n"], s(l, "brief"), l["repeat_same"]),
+                    None => println!("   {} => no result (worker died: {:?})", c.name(), r.died_at),
+                }
+            }
+            let bad = match (rr[0].lines.get(&qi), rr[1].lines.get(&qi)) {
+                (Some(b), Some(o)) => differs(&qs[qi], b, o).is_some() || o["repeat_same"] == json!(false),
+                _ => true,
+            };
+            if bad {
+                println!("REPRODUCED");
+                1
+            } else {
+                println!("not reproduced");
+                0
+            }
+        }
+    }
 }
